@@ -1486,9 +1486,16 @@ class FileBuilder:
         made_dirs = []
         try:
             for parent in dirs_to_make:
+                norm_cased_parent = os.path.normcase(parent)
+                # If the current build has started building "parent", then the
+                # file that is there now is its work, not the previous build's.
+                # We must not back it up, because then _roll_back would restore
+                # it.
                 if (os.path.isfile(parent) and
                         self._old_cache.created_norm_cased_file(
-                            os.path.normcase(parent)) and
+                            norm_cased_parent) and
+                        not self._new_cache.has_norm_cased_file(
+                            norm_cased_parent) and
                         self._backups.back_up_and_remove(parent)):
                     logger.info(
                         'Moved {:s} to a temporary directory, in order to '
